@@ -50,7 +50,7 @@ ModName(c)   == CASE c["co"] \in {"module", "both"} -> "custom_mod" [] c["co"] =
 TitledName(c) == IF c["upp"] = "on" THEN ClassName(c) \o "Titled" ELSE "Titled"
 FieldName(c) == IF c["fp"] = "on" THEN "attr_1st" ELSE "field_1st"
 \* create_thing has tags [alpha, beta], get_thing [alpha], upload_blob none ("default"); upload_blob exists only when its body's media type is known
-Placements(c) == ({<<"alpha", "create_thing">>, <<"alpha", "get_thing">>} \cup (IF c["gat"] = "on" THEN {<<"beta", "create_thing">>} ELSE {}))
+Placements(c) == ({<<"alpha", "create_thing">>, <<"alpha", "get_thing">>, <<"v1", "list_items">>, <<"v2", "list_items">>} \cup (IF c["gat"] = "on" THEN {<<"beta", "create_thing">>} ELSE {}))
                  \cup (IF c["cto"] = "on" THEN {<<"default", "upload_blob">>} ELSE {})
 Blob(c)      == IF c["cto"] = "on" THEN "octet" ELSE "omitted"        \* request body of media type application/vnd.acme.blob
 HooksRun(c)  == CASE c["hooks"] = "custom" -> <<"marker">>
